@@ -53,6 +53,20 @@ Proof. vm_compute. reflexivity. Qed.
 Example ex_let : both (T [l "let"; T [T [l "y"; l "x"]]; l "y"]) = ((-1)%Z, None, Some (sBV 8)).
 Proof. vm_compute. reflexivity. Qed.
 
+(* F69: a list with a comment among its children has no sort, at the top and below an operator
+   whose sort is the sort of an operand *)
+Theorem comment_operand_has_no_sort_proof : forall I idx e,
+  has_comment_operand e = true -> Smtlib.get_sort I idx e = None.
+Proof. intros I idx e H. unfold Smtlib.get_sort. now rewrite H. Qed.
+
+Definition ite_I : info := mk_info [(lit "p", Some sBool); (lit "b", Some sInt); (lit "c", Some sInt)] [].
+Example ex_ite_comment :
+  Smtlib.get_sort ite_I false (T [l "ite"; l "; c"; l "p"; l "b"; l "c"]) = None /\
+  Smtlib.get_sort ite_I false (T [l "ite"; l "p"; l "b"; l "c"]) = Some sInt /\
+  Smtlib.get_sort ite_I false (T [l "ite"; l "p"; T [l "ite"; l "; c"; l "p"; l "b"; l "c"]; l "c"]) = None /\
+  Smtlib.get_sort ite_I false (T [l "ite"; l "p"; T [l "ite"; l "p"; l "b"; l "c"]; l "c"]) = Some sInt.
+Proof. vm_compute. repeat split. Qed.
+
 (* an instance of the subterm theorem: the bound variable below a quantifier *)
 Definition ex_q : sexp := T [l "forall"; T [T [l "y"; sInt]]; T [l "="; l "y"; l "n"]].
 Example ex_reach : reach ex_I ex_g ex_q (bind_vars ex_g [(lit "y", sInt)]) (l "y").
